@@ -80,9 +80,49 @@ func (p *c10Printer) sectionText(sec *c10Sec, allowMIME bool) {
 	}
 }
 
+// fetchAttSmall (fam 2, attribute lists): UID, FLAGS or BODY[] / BODY.PEEK[] / BODY[TEXT] / BODY.PEEK[TEXT] with an
+// optional partial of one- or two-digit numbers - lists may name the same section several times.
+func (p *c10Printer) fetchAttSmall() c10Att {
+	var a c10Att
+	switch vsymChoice("attSmall", 4) {
+	case 0:
+		a.kind = 9
+		p.kw(c10AttNames[9])
+		return a
+	case 1:
+		a.kind = 1
+		p.kw(c10AttNames[1])
+		return a
+	case 2:
+		a.kind = 10
+		p.kw("BODY")
+	case 3:
+		a.kind = 11
+		p.kw("BODY.PEEK")
+	}
+	p.raw("[")
+	if vsymChoice("secSmall", 2) == 1 {
+		p.kw("TEXT")
+		a.sec.kind = 2
+	}
+	p.raw("]")
+	if vsymChoice("partial", 2) == 1 {
+		a.partial = true
+		p.raw("<")
+		a.off = p.number(2, true)
+		p.raw(".")
+		a.cnt = p.number(2, false)
+		p.raw(">")
+	}
+	return a
+}
+
 func (p *c10Printer) fetchAtt() c10Att {
 	var a c10Att
 	fam := vsymParam("fam")
+	if fam == 2 {
+		return p.fetchAttSmall()
+	}
 	if fam == 1 {
 		a.kind = 10 + vsymChoice("peek", 2)
 	} else {
